@@ -268,8 +268,8 @@ Proof. vm_compute. repeat split; auto. Qed.
 (* ==== QUIESCENCE (liveness clause), machine-checked as a termination measure
    (Proofs/SchedQuiesce.v).
    Phi c U s = sum over nodes x of W(x) * (2 * |todo x| + |doing x|), target sets
-   counted inside a finite universe U, W(x) = B ^ (H - level x), B = 2 |U| N + 1,
-   H = 1 + the largest level.  quiet_run c U s xs: the continuation xs contains
+   counted inside a finite universe U, W(x) = B ^ (H - depth x), depth x = the number of
+   ancestors of x, B = 2 |U| N + 1, H = 1 + the largest depth.  quiet_run c U s xs: the continuation xs contains
    no request and no rebuild (Org / Build); every reply is for a unit (x,t) that
    the scheduler counts as executing when it arrives (t in doing x; for clean
    histories that is exactly "in flight", C03_doing_is_in_flight_clean) with t in
@@ -277,9 +277,12 @@ Proof. vm_compute. repeat split; auto. Qed.
    drops, flag changes are allowed.
    ASSUMED: (1) gfb c = [] -- the engine has no feedback edge (a success report
    then schedules children only; with feedback an upstream node is scheduled
-   again and the pipeline legitimately iterates); (2) lvl_okb c -- every child
-   has a larger `level` than its parent and every ancestor a smaller one (checked
-   by props/C04.py on every graph the real dag.Construct produced); (3) the
+   again and the pipeline legitimately iterates); (2) depth_okb c -- every child
+   has more ancestors than its parent and every ancestor fewer than its
+   descendant (true of a transitively closed acyclic ancestry; checked by
+   props/C04.py on every graph the real dag.Construct produced.  The `level`
+   attribute cannot be used: dag.Node.graph sets it at the FIRST visit, a node
+   can carry the level of one of its ancestors); (3) the
    state is reachable (GInv; C04_quiesce_reach).
    PARTIAL with respect to "every waiter is eventually satisfied": the theorems
    bound the work and characterise the rest state; that workers answer and the
@@ -294,7 +297,7 @@ From DV Require Import Proofs.SchedQuiesce.
    number of released units plus the number of replies is at most Phi at its
    start, which is at most N * B^H * 3|U| *)
 Theorem C04_quiesce_partial : forall c U xs s,
-  gfb c = [] -> lvl_okb c = true -> GInv c s -> quiet_run c U s xs ->
+  gfb c = [] -> depth_okb c = true -> GInv c s -> quiet_run c U s xs ->
   Phi c U (xrun c s xs) + releases c U s xs + replies xs <= Phi c U s /\
   Phi c U s <= nnodes c * (Bc c U ^ Hc c * (3 * length U)).
 Proof.
@@ -304,7 +307,7 @@ Print Assumptions C04_quiesce_partial.
 
 (* one step: a reply costs at least 1, a dispatch at least the units it released *)
 Theorem C04_quiesce_step : forall c U s x,
-  gfb c = [] -> lvl_okb c = true -> GInv c s -> quiet U s x ->
+  gfb c = [] -> depth_okb c = true -> GInv c s -> quiet U s x ->
   let s' := fst (xstep c s x) in
   Phi c U s' + nrel c U s s' + (if is_rep x then 1 else 0) <= Phi c U s.
 Proof. intros c U s x Hfb Hlv G Q. apply quiet_step; assumption. Qed.
@@ -318,7 +321,7 @@ Print Assumptions C04_quiesce_reach.
    unpaused pipeline releases nothing, nothing is pending either; with no stale
    queue entry the queue and both waiter views are empty: idle *)
 Theorem C04_quiesce_idle_partial : forall c s,
-  GInv c s -> lvl_okb c = true -> active s = true -> paused s = false ->
+  GInv c s -> depth_okb c = true -> active s = true -> paused s = false ->
   (forall x, In x (que s) -> todo (getn (ns s) x) <> [] \/ doing (getn (ns s) x) <> []) ->
   (forall x, doing (getn (ns s) x) = []) ->
   (forall x, doing (getn (ns (fst (dispatch c s))) x) = []) ->
@@ -330,7 +333,7 @@ Print Assumptions C04_quiesce_idle_partial.
 Theorem C04_quiesce_rest_refuted_queue :
   let s := fst (run c04_chain (init c04_chain)
                   [Reg 1 0 true; Org [0; 1] None [1]; Tick; Rep 1 0 1 1%Z Failure []]) in
-  lvl_okb c04_chain = true /\ active s = true /\ paused s = false /\
+  depth_okb c04_chain = true /\ active s = true /\ paused s = false /\
   (forall x, doing (getn (ns (fst (dispatch c04_chain s))) x) = []) /\ que s = [1].
 Proof.
   vm_compute. repeat split; auto.
@@ -347,7 +350,7 @@ Example C04_quiesce_example :
   let s := xrun c (init c) [Ev (Reg 1 0 true); Ev (Reg 2 0 true); Ev (Reg 3 0 true); Ev (Org [0] None [1])] in
   let xs := [TickFault 1; Ev Tick; Ev (Rep 1 0 1 1%Z Success [(1, 0, true)]); Ev Tick;
              Ev (Rep 2 1 1 1%Z Success [(1, 1, true)]); Ev Tick; Ev (Rep 3 2 0 1%Z Success [(0, 2, false)])] in
-  gfb c = [] /\ lvl_okb c = true /\ quiet_run c [0; 1] s xs /\
+  gfb c = [] /\ depth_okb c = true /\ quiet_run c [0; 1] s xs /\
   releases c [0; 1] s xs = 3 /\ replies xs = 3 /\
   que (xrun c s xs) = [] /\ inflight (xrun c s xs) = [].
 Proof. vm_compute. repeat split; auto. Qed.
